@@ -29,4 +29,10 @@ CHECKS = {
         "level_note": "Trusts the provenance model (30 lines) and Rust's char_indices; only non-empty ordered non-overlapping edits (the statement's domain).",
         "technique": "history + executable model (provenance tracking) monitor on InputBuffer; recomputation oracle on tokenizer results",
     },
+    "C04": {
+        "level_text": "Exploration: every byte offset of generated texts is looked up in generated dictionary stacks and the result multiset is compared with a scan of the source CSV; bounds monitors at the trie / word-id-table hooks watch every access. Held on the counted lookups.",
+        "design_ref": "DESIGN.md 6/C04",
+        "level_note": "Trusts the HashMap-of-keys reference scan; dictionary sizes and layer counts are those in the evidence counters.",
+        "technique": "reference-model monitor (naive scan of source rows) + bounds monitors at hooks H3",
+    },
 }
